@@ -1398,3 +1398,76 @@ add("twopass-02-fill-pass-uses-one-seed", ["C14"], "countmin", _Q1, _q2(seed="0"
     note="every row hashes with seed 0: the rows are no longer independent")
 add("twopass-03-fill-pass-skips-last-row", ["C01", "C14"], "countmin", _Q1, _q2(bound="depth - 1"), rules=["qmin", "seedrow", "addr"],
     note="the last row's bucket is whatever the previous key left there")
+
+
+# ---------------------------------------------------------------------------
+# defects planted on top of archived behaviour-preserving refactorings (refactors/<id>/patch.diff): every normalisation that makes a
+# restructured-but-correct shape readable must leave the defect in that shape visible
+# ---------------------------------------------------------------------------
+def _on_refactor(rid, *edits):
+    def f(src):
+        import os as _os
+        from .mutants import apply_unified_diff
+        p = _os.path.join(_os.path.dirname(_os.path.dirname(_os.path.abspath(__file__))), "refactors", rid, "patch.diff")
+        out = apply_unified_diff(src, open(p).read())
+        if out is None:
+            return None
+        for mod, old, new in edits:
+            if out[mod].count(old) != 1:
+                return None
+            out[mod] = out[mod].replace(old, new)
+        return out
+    return f
+
+
+add("onref-01-nlz-halving-loop-skips-the-2-bit-probe", ["C02"], "hyperloglog",
+    _on_refactor("QE02", ("hyperloglog", "    while shift > uint64(1):", "    while shift > uint64(2):")), None, rules=["nlz"],
+    note="QE02's binary search written as a loop over halving shifts, stopped one probe early")
+add("onref-02-holds-key-helper-ignores-length", ["C03"], "heavyhitters",
+    _on_refactor("QE04", ("heavyhitters", "    if cell_key_len != key_len:\n        return False\n    return np.all(cell_key == key_array)",
+                          "    return np.all(cell_key == key_array)")), None, rules=["keyid"],
+    note="QE04's shared key predicate compares the bytes only")
+add("onref-03-del-table-view-unlinks", ["C16"], "hyperloglog",
+    _on_refactor("QE16", ("hyperloglog", '("existing_shm", False, "close existing_shm")', '("existing_shm", True, "close existing_shm")')), None, rules=["owner"],
+    note="QE16's table-driven __del__: the row of the attached view says it owns the block")
+add("onref-04-carve-offsets-overlap", ["C16"], "heavyhitters",
+    _on_refactor("QE16", ("heavyhitters", "            lens_at = count_at + lhh_count_nbytes\n", "            lens_at = count_at + key_lens_nbytes\n")), None, rules=["layout"],
+    note="QE16's _carve helper fed an offset computed from the wrong segment size")
+add("onref-05-residual-check-on-stale-temporary", ["C09"], "countmin",
+    _on_refactor("QE18", ("countmin", "    residual = _func(base, max_count, num_reserved, uint_max)\n    tolerance = 1e-9 * M * base\n    if abs(residual) > tolerance:",
+                          "    tolerance = 1e-9 * M * base\n    if abs(residual) > tolerance:")), None, rules=["findbase-post"],
+    note="QE18: the post-check reads the residual of the LAST Newton step's starting point, not of the returned base")
+add("onref-06-failed-item-counts-one", ["C19"], "helpers",
+    _on_refactor("QB19", ("helpers", "        n_recs = 0\n        try:", "        n_recs = 1\n        try:")), None, rules=["nrecs", "cb-guard"],
+    note="QB19's pre-initialised per-item count: a failing callback adds 1")
+add("onref-07-linear-loader-checks-uint16", ["C10"], "countmin",
+    _on_refactor("QB10", ("countmin", "    _counter_type = np.uint32", "    _counter_type = np.uint16")), None,
+    rules=["dispatch"], note="QB10's class-level counter type of CountMinLinear says uint16: its loader accepts CountMinLog16 files")
+add("onref-08-flag-chain-skips-counter-type", ["C15"], "countmin",
+    _on_refactor("QB09", ("countmin", "        if not differs:\n            differs = self.uint_maxval != other.uint_maxval\n", "")), None, rules=["guard-set"],
+    note="QB09's step-by-step mismatch flag never looks at uint_maxval")
+add("onref-09-rounding-flag-inverted", ["C09"], "countmin",
+    _on_refactor("QB09", ("countmin", "                round_up = not (fraction <= 0.5)", "                round_up = fraction <= 0.5")), None, rules=["logmerge-shape"],
+    note="QB09's `floor + uint16(round_up)`: rounds down above the midpoint")
+add("onref-10-countdown-window-loop-one-short", ["C03"], "heavyhitters",
+    _on_refactor("QB12", ("heavyhitters", "        todo = key_len - (ngram - uint64(1))\n", "        todo = key_len - ngram\n")), None, rules=["window"],
+    note="QB12's count-down window loop runs one window short")
+add("onref-11-break-bound-drops-last-window", ["C02"], "hyperloglog",
+    _on_refactor("QB12", ("hyperloglog", "            if stop > key_len:", "            if stop >= key_len:")), None, rules=["window"],
+    note="QB12's window loop bounded by a break: the break fires one window early")
+add("onref-12-reverse-rows-skip-row-zero", ["C01"], "countmin",
+    _on_refactor("QB18", ("countmin", "        last = depth - uint64(1)\n        for i in range(depth):", "        last = depth - uint64(1)\n        for i in range(depth - uint64(1)):")), None,
+    rules=["cons"], note="QB18's backwards row enumeration stops before row 0")
+add("onref-13-ceiling-arm-stores-one-less", ["C09"], "countmin",
+    _on_refactor("QB18", ("countmin", "                merged = uint64(uint_maxval)\n            else:\n                cprime = np.log((v - num_reserved) * (base - 1.0) + 1.0) / np.log(base)\n                cprime = uint16(cprime)",
+                          "                merged = uint64(uint_maxval) - uint64(1)\n            else:\n                cprime = np.log((v - num_reserved) * (base - 1.0) + 1.0) / np.log(base)\n                cprime = uint16(cprime)")), None,
+    rules=["logmerge-shape", "mono"], note="QB18's single store after the case analysis: the ceiling arm hands it uint_maxval - 1")
+add("onref-14-unswitched-update-swaps-key-and-count", ["C01"], "countmin",
+    _on_refactor("QB01", ("countmin", "                key, value = entry\n", "                value, key = entry\n")), None, rules=["deleg"],
+    note="QB01's single loop over `keys.items() if weighted else keys`: the item is unpacked the wrong way round")
+add("onref-15-moved-flag-negated", ["C05"], "countmin",
+    _on_refactor("QB05", ("countmin", "        if moved and cms[row, col] < new_count:", "        if not moved and cms[row, col] < new_count:")), None, rules=["cons"],
+    note="QB05's `moved` flag guards the conservative update with the wrong polarity")
+add("onref-16-nlz-width-loop-starts-at-16", ["C02"], "hyperloglog",
+    _on_refactor("QB02", ("hyperloglog", "    width = uint64(32)\n    while width >= two:", "    width = uint64(16)\n    while width >= two:")), None, rules=["nlz"],
+    note="QB02's halving loop never probes the upper 32 bits")
